@@ -45,6 +45,7 @@ func ruleC19(r *Report) {
 	checkStoreFailureReplies(r, p)
 	r.Rule("C19.whole-password", "the password hashed when a user is stored and the password compared at login are the client's string itself, whole (a sub-range on one side lets a password that was never the user's pass)", 1)
 	safely(r, func() { checkWholePassword(r, p, "C19.whole-password") })
+	safely(r, func() { checkSessionWriters(r, p, "C19.session-source") })
 	r.Rule("C19.current-password", "the stored hash is that of the password the last put carried: the earlier hash is kept only when the request carried no password (PlaintextPassword == nil), and whether the carried password is hashed depends on nothing about it but its presence", 2)
 	safely(r, func() { checkCurrentPassword(r, p, "C19.current-password") })
 }
@@ -1922,4 +1923,68 @@ func constantTextGlobal(p *Prog, g *ssa.Global) bool {
 		return false
 	}
 	return n == 1
+}
+
+// checkSessionWriters: who-may-write. "The assertion describes the user as stored at login": a stored session is written
+// once, by the login path (GetSession and the helpers it is split into), and by nothing else — a later rewrite of live
+// sessions (say, from the user-management handlers) changes what an old cookie asserts without a new login.
+func checkSessionWriters(r *Report, p *Prog, rule string) {
+	top := p.MustFunc("samlidp", "Server", "GetSession")
+	login := map[*ssa.Function]bool{}
+	for _, f := range helperRegion(p, top, 2) {
+		login[f] = true
+	}
+	// the collection the login path stores sessions under
+	prefix := ""
+	type put struct {
+		fn  *ssa.Function
+		in  ssa.Instruction
+		fmt string
+		val ssa.Value
+	}
+	var puts []put
+	for _, fn := range p.modFns {
+		if !p.InLibrary(fn) || !inPkg(fn, idpPkgPath) {
+			continue
+		}
+		fc := NewAnalysis(p).Ctx(fn)
+		for _, b := range fn.Blocks {
+			for _, in := range b.Instrs {
+				c, ok := in.(ssa.CallInstruction)
+				if !ok || storeCallKind(c.Common()) != "Put" || len(c.Common().Args) < 2 {
+					continue
+				}
+				f, _ := storeKeyOf(fc, c.Common().Args[0], 0)
+				puts = append(puts, put{fn, in, f, c.Common().Args[1]})
+				if login[fn] && strings.HasSuffix(f, "%s") {
+					prefix = strings.TrimSuffix(f, "%s")
+				}
+			}
+		}
+	}
+	if prefix == "" {
+		r.Undecided(rule, "stored sessions are written by the login path only", "-", "no session store write found under GetSession")
+		return
+	}
+	bad := ""
+	n := 0
+	for _, pt := range puts {
+		isSession := strings.HasPrefix(pt.fmt, prefix)
+		if !isSession {
+			// a value of the session type stored under a key that could not be read
+			v := pt.val
+			if mi, ok := v.(*ssa.MakeInterface); ok {
+				v = mi.X
+			}
+			isSession = pt.fmt == "?" && typeIs(v.Type(), modPath, "Session")
+		}
+		if !isSession {
+			continue
+		}
+		n++
+		if !login[pt.fn] {
+			bad = firstNonEmpty(bad, p.FnName(pt.fn)+" at "+p.InstrPos(pt.in))
+		}
+	}
+	r.Check(n >= 1 && bad == "", rule, "stored sessions are written by the login path only", "-", fmt.Sprintf("%d writes under %q, all in GetSession or its helpers", n, prefix), "a stored session is (re)written outside the login path ("+bad+"): the holder of an old cookie is then asserted with data that was not the user's when they logged in")
 }
